@@ -3116,3 +3116,22 @@ V(id='c13-powm1-zero-beyond-size-bound', prop='C13', file='mpmath/functions/func
 V(id='c07-pq-parameter-through-int', prop='C07', file='mpmath/ctx_mp_python.py',
   old="                p = str_to_int(p)\n                q = str_to_int(q)\n", new="                p = int(p)\n                q = int(q)\n",
   expect='fire:L-R1:_convert_param')
+
+# ---- C10 B-R12 (fourth hunt; fixes 06a24b4, 2a12452) ----
+V(id='c10-rs-zeta-returns-guard-bits', prop='C10', file='mpmath/functions/rszeta.py',
+  old="    # (the value was computed with guard bits)\n    return +v\n", new="    return v\n", expect='fire:B-R12:rs_zeta')
+V(id='c10-rs-z-returns-guard-bits', prop='C10', file='mpmath/functions/rszeta.py',
+  old="        raise NotImplementedError(\"Riemann-Siegel can not compute with such sigma\")\n    finally:\n        ctx.prec = prec\n    return +v\n", new="        raise NotImplementedError(\"Riemann-Siegel can not compute with such sigma\")\n    finally:\n        ctx.prec = prec\n    return v\n", expect='fire:B-R12:rs_z')
+V(id='c10-borel-sum-leaves-try-unrounded', prop='C10', file='mpmath/functions/hypergeometric.py',
+  old="                done = True\n                break\n", new="                return s\n", expect='fire:B-R12:_hyp_borel')
+
+# ---- C09 V-R6 / V-R7 (second hunt; fixes f660b9b, 0ab9321) ----
+V(id='c09-iv-float-truncates', prop='C09', file='mpmath/ctx_iv.py',
+  old="        return self.cast(float, lambda v: libmp.to_float(v, rnd=libmp.round_nearest))\n", new="        return self.cast(float, libmp.to_float)\n",
+  expect='fire:V-R6:__float__')
+V(id='c09-iv-complex-without-mode', prop='C09', file='mpmath/ctx_iv.py',
+  old="        return self.cast(complex, lambda v: libmp.to_float(v, rnd=libmp.round_nearest))\n", new="        return self.cast(complex, lambda v: libmp.to_float(v))\n",
+  expect='fire:V-R6:__complex__')
+V(id='c09-complex-operand-through-constructor', prop='C09', file='mpmath/ctx_mp_python.py',
+  old="        if isinstance(x, complex_types): return cls.context.convert(x)\n", new="        if isinstance(x, complex_types): return cls.context.mpc(x)\n",
+  expect='fire:V-R7:mpf_convert_rhs')
